@@ -22,6 +22,8 @@ from optilint.core import Ctx, Incomplete, finish, UNDECIDED  # noqa: E402
 def run_rules(prop, tier, seed, overrides=None, quiet=False, repo=None):
     mod = importlib.import_module(f"rules.{prop}")
     ctx = Ctx(prop, tier, seed, overrides=overrides, quiet=quiet, repo=repo)
+    from rules import common as _common
+    _common.REPO = ctx.repo
     if ctx.repo.parse_errors:
         for (p, e) in ctx.repo.parse_errors:
             ctx.undecided("parse", None, None, construct=os.path.relpath(p, ctx.repo.root), detail=f"cannot parse: {e}")
